@@ -8,15 +8,12 @@ namespace OLP.Stake
 /-- What a *successful* stake must satisfy for the record invariants to survive:
     * `v`, `d` belong to the finite universe the sums range over (no restriction: any list that
       contains the addresses of the history will do);
-    * **forced by KF-C11-2**: the validator's record of the previous block, if there is one, has
-      power and carries the same stake address (otherwise EndBlock deletes the record under the
-      fresh stake);
     * supply bound: the record's `staking` stays below 2^63 whole tokens, so that
-      `calculatePower` (`Int64()`) is the identity. -/
+      `calculatePower` (`Int64()`) is the identity.
+    (The hypothesis KF-C11-2 forced — no stake onto a record without power — is gone: since
+    d8b47b0 EndBlock looks at the current record.) -/
 def StakeGuard (U : List Addr) (s : St) (v d : Addr) (a : Int) : Prop :=
-  v ∈ U ∧ d ∈ U ∧
-  (∀ r', s.prev v = some r' → 0 < r'.power ∧ r'.sa = d) ∧
-  (∀ r, s.vals v = some r → r.staking + a < two63)
+  v ∈ U ∧ d ∈ U ∧ (∀ r, s.vals v = some r → r.staking + a < two63)
 
 def RecGuard (U : List Addr) (s : St) : Tx → Prop
   | .stake v d a => (txStake s v d a).2 = .ok → StakeGuard U s v d a
@@ -35,7 +32,7 @@ theorem rec_stakeOk {U : List Addr} (hU : U.Nodup) {s : St} (h : Rec U s) (hi : 
     (hg : StakeGuard U s v d a) (hsa : (stakeRec s v d a u).sa = d)
     (hrule : ∀ r, s.vals v = some r → r.sa ≠ d → s.vd v r.sa = 0) :
     Rec U (stakeOk s v d a u) ∧ InBlock (stakeOk s v d a u) := by
-  obtain ⟨hvU, hdU, hprev, hbound⟩ := hg
+  obtain ⟨hvU, hdU, hbound⟩ := hg
   have hvals : ∀ v', (stakeOk s v d a u).vals v' =
       if v' = v then some (stakeRec s v d a u) else s.vals v' := by
     intro v'; simp only [stakeOk, upd_apply]
@@ -103,33 +100,13 @@ theorem rec_stakeOk {U : List Addr} (hU : U.Nodup) {s : St} (h : Rec U s) (hi : 
       · simp only [hEq, if_false] at hv'
         have htot : (stakeOk s v d a u).tot v' = s.tot v' := by simp [stakeOk, upd_apply, hEq]
         rw [htot]; exact h.absent v' hv'
-    · intro v' r r' hp hr
-      rw [hvals] at hr
-      have hp' : s.prev v' = some r' := hp
-      by_eq v' v
-      · subst hEq
-        simp only [if_true] at hr
-        rw [← Option.some.inj hr, hsa]
-        exact (hprev r' hp').2.symm
-      · simp only [hEq, if_false] at hr
-        exact h.sameAddr v' r r' hp' hr
   · constructor
-    · exact hi.noDelayed
-    · intro v' r' hp hpow
-      have hp' : s.prev v' = some r' := hp
-      by_eq v' v
-      · subst hEq
-        have := (hprev r' hp').1
-        omega
-      · have htot : (stakeOk s v d a u).tot v' = s.tot v' := by simp [stakeOk, upd_apply, hEq]
-        rw [htot]; exact hi.zeroPrev v' r' hp' hpow
-    · exact hi.purgeOld
+    exact hi.noDelayed
 
 /-- fields the record invariants do not read may change freely -/
 theorem rec_congr {U : List Addr} {s s' : St} (h : Rec U s) (hi : InBlock s)
     (e1 : s'.tot = s.tot) (e2 : s'.vd = s.vd) (e3 : s'.eff = s.eff) (e4 : s'.vals = s.vals)
-    (e5 : s'.prev = s.prev) (e6 : s'.delayed = s.delayed) (e7 : s'.height = s.height)
-    (e8 : s'.purge = s.purge) : Rec U s' ∧ InBlock s' := by
+    (e6 : s'.delayed = s.delayed) (e7 : s'.height = s.height) : Rec U s' ∧ InBlock s' := by
   have hp : ∀ v, pendOf s' v = pendOf s v := by intro v; simp only [pendOf, e6, e7]
   constructor
   · constructor
@@ -139,11 +116,8 @@ theorem rec_congr {U : List Addr} {s s' : St} (h : Rec U s) (hi : InBlock s)
     · intro v d; rw [e2, e4]; exact h.single v d
     · intro v r; rw [e4, e1, hp]; exact h.staking v r
     · intro v; rw [e4, e1]; exact h.absent v
-    · intro v r r'; rw [e5, e4]; exact h.sameAddr v r r'
   · constructor
-    · intro k v; rw [e7, e6]; exact hi.noDelayed k v
-    · intro v r'; rw [e5, e1]; exact hi.zeroPrev v r'
-    · intro v; rw [e8, e7]; exact hi.purgeOld v
+    intro k v; rw [e7, e6]; exact hi.noDelayed k v
 
 theorem rec_unstakeOk {U : List Addr} (hU : U.Nodup) {s : St} (h : Rec U s) (hi : InBlock s)
     (_hn : NonNeg s) (v d : Addr) (a : Int) (r : VRec) (hv : s.vals v = some r) (hsa : r.sa = d)
@@ -220,26 +194,8 @@ theorem rec_unstakeOk {U : List Addr} (hU : U.Nodup) {s : St} (h : Rec U s) (hi 
       · simp [hEq] at hv'
       · simp only [hEq, if_false] at hv'
         rw [htot v' hEq]; exact h.absent v' hv'
-    · intro v' r2 r' hp hr2
-      rw [hvals] at hr2
-      have hp' : s.prev v' = some r' := hp
-      by_eq v' v
-      · subst hEq
-        simp only [if_true] at hr2
-        rw [← Option.some.inj hr2]
-        exact h.sameAddr v' r r' hp' hv
-      · simp only [hEq, if_false] at hr2
-        exact h.sameAddr v' r2 r' hp' hr2
   · constructor
-    · exact hi.noDelayed
-    · intro v' r' hp hpow
-      have hp' : s.prev v' = some r' := hp
-      by_eq v' v
-      · subst hEq
-        have := hi.zeroPrev v' r' hp' hpow
-        omega
-      · rw [htot v' hEq]; exact hi.zeroPrev v' r' hp' hpow
-    · exact hi.purgeOld
+    exact hi.noDelayed
 
 /-- the "stake address in use" rule: a successful stake under another address found the old
     address clean, in particular without any stake left with this validator -/
@@ -279,12 +235,12 @@ theorem rec_tx {U : List Addr} (hU : U.Nodup) {s : St} {t : Tx} (h : Rec U s) (h
       -- the balance debit and the ghost fields do not matter
       have hs1 : Rec U { s with bal := upd s.bal d (s.bal d - coinOf a) } ∧
           InBlock { s with bal := upd s.bal d (s.bal d - coinOf a) } :=
-        rec_congr h hi rfl rfl rfl rfl rfl rfl rfl rfl
+        rec_congr h hi rfl rfl rfl rfl rfl rfl
       have hn1 : NonNeg { s with bal := upd s.bal d (s.bal d - coinOf a) } :=
         ⟨hn.vd, hn.tot, hn.eff, hn.bnd, hn.mat⟩
       have key := rec_stakeOk hU hs1.1 hs1.2 hn1 v d a (otherAddr s v d) h0 hlt hg'
         (stakeRec_sa_other s v d a) (inUse_false_rule hu)
-      exact rec_congr key.1 key.2 rfl rfl rfl rfl rfl rfl rfl rfl
+      exact rec_congr key.1 key.2 rfl rfl rfl rfl rfl rfl
   | genesisStake v d a =>
     obtain ⟨h0, hlt, hsame, hg'⟩ := hg
     rcases runGenesisStake_cases s v d a with hh | ⟨hp, he⟩
@@ -299,23 +255,24 @@ theorem rec_tx {U : List Addr} (hU : U.Nodup) {s : St} {t : Tx} (h : Rec U s) (h
         | some r => simp [hsame r hv]
       have key := rec_stakeOk hU h hi hn v d a false h0 hlt (hg' hok) hsa
         (fun r hr hne => absurd (hsame r hr) hne)
-      exact rec_congr key.1 key.2 rfl rfl rfl rfl rfl rfl rfl rfl
+      exact rec_congr key.1 key.2 rfl rfl rfl rfl rfl rfl
   | unstake v d a =>
     rcases txUnstake_cases s v d a with hh | ⟨r, hv, hsa, h0, hlt, hf, hr, h1, h2, h3, hp, he⟩
     · simp only [stepTx]; rw [hh.1]; exact ⟨h, hi⟩
     · simp only [stepTx]; rw [he]
       exact rec_unstakeOk hU h hi hn v d a r hv hsa h0 h1 h2
   | withdraw v d a =>
-    rcases txWithdraw_cases s v d a with hh | ⟨h0, hlt, hc, ho, hf, hb, he⟩
+    rcases txWithdraw_cases s v d a with hh | ⟨h0, hlt, hc, ho, hf, hfo, hb, he⟩
     · simp only [stepTx]; rw [hh.1]; exact ⟨h, hi⟩
     · simp only [stepTx]; rw [he]
-      exact rec_congr h hi rfl rfl rfl rfl rfl rfl rfl rfl
-  | freeze v => exact rec_congr h hi rfl rfl rfl rfl rfl rfl rfl rfl
-  | release v => exact rec_congr h hi rfl rfl rfl rfl rfl rfl rfl rfl
-  | allege v => exact rec_congr h hi rfl rfl rfl rfl rfl rfl rfl rfl
-  | closeRequest v => exact rec_congr h hi rfl rfl rfl rfl rfl rfl rfl rfl
-  | setMaturity m => exact rec_congr h hi rfl rfl rfl rfl rfl rfl rfl rfl
-  | credit d x => exact rec_congr h hi rfl rfl rfl rfl rfl rfl rfl rfl
+      exact rec_congr h hi rfl rfl rfl rfl rfl rfl
+  | freeze v => exact rec_congr h hi rfl rfl rfl rfl rfl rfl
+  | release v => exact rec_congr h hi rfl rfl rfl rfl rfl rfl
+  | allege v => exact rec_congr h hi rfl rfl rfl rfl rfl rfl
+  | closeRequest v => exact rec_congr h hi rfl rfl rfl rfl rfl rfl
+  | setMaturity m => exact rec_congr h hi rfl rfl rfl rfl rfl rfl
+  | credit d x => exact rec_congr h hi rfl rfl rfl rfl rfl rfl
+  | setIterVals l => exact rec_congr h hi rfl rfl rfl rfl rfl rfl
 
 /-- genesis entries are sane whenever the record guard holds -/
 theorem recGuard_genesisSane {U : List Addr} {s : St} {t : Tx} (hg : RecGuard U s t) :
